@@ -559,6 +559,8 @@ class WebSocket:
         """
         if status < 0 or status >= ABNF.LENGTH_16:
             raise ValueError("code is invalid range")
+        if isinstance(reason, str):
+            reason = reason.encode("utf-8")
         self.connected = False
         self.send(struct.pack("!H", status) + reason, ABNF.OPCODE_CLOSE)
 
@@ -583,6 +585,8 @@ class WebSocket:
             return
         if status < 0 or status >= ABNF.LENGTH_16:
             raise ValueError("code is invalid range")
+        if isinstance(reason, str):
+            reason = reason.encode("utf-8")
         if not self._claim_close_frame():
             # another thread (the automatic reply to the server's close frame)
             # got there first
